@@ -365,20 +365,22 @@ def r5_umask(ctx, prog):
     # (c) octal parsing of the option
     f = prog.fn('SimpleConfigLoader::loadConfiguration')
     ctx.analysed(f)
-    found = False
-    for n in walk(f['body']):
-        if n.get('k') == 'Switch':
-            for labels, stmts in tables.switch_cases(n):
-                if 'CONFIG_TYPE_INT_OCTAL' in labels:
-                    for c in calls(stmts, short='strtol'):
-                        found = True
-                        base = tables.const_eval(c['args'][2]) if len(c['args']) >= 3 else None
-                        if base != 8:
-                            r.violation(f['qname'], 'octal option parsing', 'CONFIG_TYPE_INT_OCTAL values are parsed with base %s: "objectstore.umask = 27" is no longer read as octal 027' % base, file=f['file'], line=c['l'])
-                        else:
-                            r.ok(f['qname'], 'octal option parsing', 'strtol(..., 8)', file=f['file'], line=c['l'])
+    # representation-independent: evaluate the loader with the option type fixed to CONFIG_TYPE_INT_OCTAL and look at the conversion call that feeds setInt
+    octal = macro(prog, 'CONFIG_TYPE_INT_OCTAL')
+    o = Outcomes(f, prog, cenv={re.compile(r'getType(@\d+)?\(.*\)'): octal, 'configType': octal}, record_calls={'strtol', 'strtoul', 'atoi', 'setInt', 'stoi'})
+    o.CAP = 64
+    o.LOOP_ROUNDS = 1
+    o.go()
+    convs = {(e[1], e[2][-1] if e[1].startswith('strto') and len(e[2]) >= 3 else None, e[3]) for oc in o.outcomes for e in oc['events'] if e[0] == 'call' and e[1] in ('strtol', 'strtoul', 'atoi', 'stoi')
+             and any(x[0] == 'call' and x[1] == 'setInt' for x in oc['events'])}
+    found = bool(convs)
+    for name, base, line in sorted(convs, key=str):
+        if name.startswith('strto') and base == '8':
+            r.ok(f['qname'], 'octal option parsing', '%s(..., 8)' % name, file=f['file'], line=line)
+        else:
+            r.violation(f['qname'], 'octal option parsing', 'CONFIG_TYPE_INT_OCTAL values are parsed with %s%s: "objectstore.umask = 27" is no longer read as octal 027' % (name, ' base %s' % base if base is not None else ''), file=f['file'], line=line)
     if not found:
-        r.undecided(f['qname'], 'octal option parsing', 'no strtol call under case CONFIG_TYPE_INT_OCTAL', file=f['file'], line=f['line'])
+        r.undecided(f['qname'], 'octal option parsing', 'no conversion call reaches setInt for CONFIG_TYPE_INT_OCTAL', file=f['file'], line=f['line'])
     cfg = prog.globals.get('valid_config') or next((g for q, g in prog.globals.items() if 'valid_config' in q), None)
     if cfg is not None:
         rows = [(x['args'][0].get('s'), canon(x['args'][1])) for x in walk(cfg['init']) if x.get('k') == 'Init' and len(x.get('args', [])) == 2 and x['args'][0].get('k') == 'Str']
